@@ -287,3 +287,63 @@ Section Static.
       destruct (filter _ (a :: r)) as [|x [|y t]]; discriminate.
   Qed.
 End Static.
+
+(* ---- C06: what the theorems above give for registration order and irrelevant methods ---- *)
+Section OrderFree.
+  Variable sub : nat -> nat -> bool.
+  Variable hasm : nat -> nat -> bool.
+  Variable chk : nat -> nat -> bool.
+  Variable sub_fresh : nat -> bool.
+  Hypothesis sub_refl : forall c, sub c c = true.
+  Hypothesis sub_antisym : forall c d, sub c d = true -> sub d c = true -> c = d.
+
+  Notation candidates := (candidates sub hasm chk sub_fresh).
+  Notation lookup := (lookup sub hasm chk sub_fresh).
+
+  Lemma static_ms_perm ms ms' : Permutation ms ms' -> static_ms ms = true -> static_ms ms' = true.
+  Proof.
+    unfold static_ms. intros Hp H. rewrite forallb_forall in *. intros m Hm. apply H.
+    eapply Permutation_in; [symmetry; exact Hp|exact Hm].
+  Qed.
+
+  (* whenever the documented rule names a winner, every registration order of the same methods returns it *)
+  Theorem decided_order_free ms ms' k cs' i :
+    NoDup (map m_id ms) -> static_ms ms = true -> static_key k = true ->
+    Permutation ms ms' -> candidates ms' k = Ok cs' ->
+    spec_outcome sub ms k = VRun i -> lookup ms' k = ORun i.
+  Proof.
+    intros Hnd Hst Hk Hp Hc Hs.
+    destruct (spec_run_winner _ _ _ _ Hs) as (m & Hm & <- & Ha & Hb).
+    eapply (winner_runs sub hasm chk sub_fresh sub_refl sub_antisym ms' k cs' m); auto.
+    - eapply Permutation_NoDup; [apply Permutation_map; exact Hp|exact Hnd].
+    - eapply static_ms_perm; eauto.
+    - eapply Permutation_in; eauto.
+    - intros m' Hm' Ha' Hne. apply Hb; auto. eapply Permutation_in; [symmetry; exact Hp|exact Hm'].
+  Qed.
+
+  (* ... and methods that are not applicable to the call do not change it *)
+  Theorem decided_irrelevant ms extra k cs' i :
+    NoDup (map m_id (ms ++ extra)) -> static_ms (ms ++ extra) = true -> static_key k = true ->
+    (forall m, In m extra -> applicable sub m k = false) ->
+    candidates (ms ++ extra) k = Ok cs' ->
+    spec_outcome sub ms k = VRun i -> lookup (ms ++ extra) k = ORun i.
+  Proof.
+    intros Hnd Hst Hk Hex Hc Hs.
+    destruct (spec_run_winner _ _ _ _ Hs) as (m & Hm & <- & Ha & Hb).
+    eapply (winner_runs sub hasm chk sub_fresh sub_refl sub_antisym (ms ++ extra) k cs' m); auto.
+    - apply in_app_iff. now left.
+    - intros m' Hm' Ha' Hne. apply in_app_iff in Hm'. destruct Hm' as [Hm'|Hm'].
+      + apply Hb; auto.
+      + rewrite (Hex _ Hm') in Ha'. discriminate.
+  Qed.
+
+  Theorem nomethod_order_free ms ms' k cs cs' :
+    static_ms ms = true -> static_key k = true -> Permutation ms ms' ->
+    candidates ms k = Ok cs -> candidates ms' k = Ok cs' ->
+    (lookup ms k = ONoMethod <-> lookup ms' k = ONoMethod).
+  Proof.
+    intros Hst Hk Hp Hc Hc'.
+    rewrite (lookup_nomethod_iff _ _ _ _ _ _ _ Hc), (lookup_nomethod_iff _ _ _ _ _ _ _ Hc').
+    split; intros H m Hm; apply H; [eapply Permutation_in; [symmetry; exact Hp|exact Hm] | eapply Permutation_in; [exact Hp|exact Hm]].
+  Qed.
+End OrderFree.
